@@ -567,6 +567,59 @@ theorem typed_wildcard_valid (t : Bytes) (h1 : t ≠ []) (h2 : plain exObject t 
   · rw [e, ← e2]
     exact user_wildcard_roundtrip t (plain_not_mem _ _ h2 58 (by decide)) (plain_not_mem _ _ h2 35 (by decide))
 
+/-! ## Towards C18: what the shape checks of internal/validation guarantee -/
+
+/-- `ValidateObject` accepts only grammatical objects that are not typed wildcards and whose type is known. -/
+theorem validateObject_ok (ts : TypeSys) (o : Bytes) (h : validateObject ts o = none) :
+    GrammarObject o ∧ (splitObject o).2 ≠ [42] ∧ ts.hasType (getType o) = true := by
+  unfold validateObject at h
+  by_cases hv : isValidObject o = true
+  · simp only [hv, Bool.not_true, Bool.false_eq_true, if_false] at h
+    by_cases hw : (splitObject o).2 = wildcard
+    · simp [hw] at h
+    · simp only [hw, if_false] at h
+      by_cases ht : ts.hasType (splitObject o).1 = true
+      · exact ⟨(valid_object_iff o).mp hv, hw, ht⟩
+      · simp [ht] at h
+  · simp [hv] at h
+
+/-- Under a supported schema version `ValidateUser` accepts only typed users (objects, typed
+wildcards, usersets) — exactly the users for which `user_string_roundtrip` holds. -/
+theorem validateUser_ok_typed (ts : TypeSys) (u : Bytes) (hs : ts.schemaSupported = true)
+    (h : validateUser ts u = none) : isValidObject u = true ∨ isValidUserset u = true := by
+  unfold validateUser at h
+  by_cases hv : isValidUser u = true
+  · simp only [hv, Bool.not_true, Bool.false_eq_true, if_false, hs, if_true] at h
+    by_cases ho : isValidObject u = true
+    · exact Or.inl ho
+    · by_cases hu : isValidUserset u = true
+      · exact Or.inr hu
+      · simp [ho, hu, isObjectRelation] at h
+  · simp [hv] at h
+
+/-- A tuple key accepted by `ValidateUserObjectRelation` renders to a string that parses back to it. -/
+theorem validated_tuple_roundtrips (ts : TypeSys) (tk : TK) (h : validateUserObjectRelation ts tk = none) :
+    parseTupleString (tupleKeyToString tk) = .ok tk := by
+  unfold validateUserObjectRelation at h
+  cases hu : validateUser ts tk.user with
+  | some e => rw [hu] at h; simp at h
+  | none =>
+    rw [hu] at h; dsimp only at h
+    cases ho : validateObject ts tk.object with
+    | some e => rw [ho] at h; simp at h
+    | none =>
+      rw [ho] at h; dsimp only at h
+      rw [tuple_roundtrip]
+      refine ⟨(valid_object_iff _).mpr (validateObject_ok ts _ ho).1, ?_, ?_⟩
+      · unfold validateRelation at h
+        by_cases hr : isValidRelation tk.relation = true
+        · exact hr
+        · simp [hr] at h
+      · unfold validateUser at hu
+        by_cases hv : isValidUser tk.user = true
+        · exact hv
+        · simp [hv] at hu
+
 /-! ## Non-vacuity -/
 
 -- "document:1" is a valid object; "group:eng#member" a valid userset; "viewer" a valid relation
